@@ -332,6 +332,8 @@ pub open spec fn hit_post(a: ChunkStore, b: ChunkStore, failed: Seq<char>, e: u6
 '''+m.group(2)
     s=re.sub(r'(                    \}\n                \}\n)(                proof \{\n                    let sq)', repl3, s)
     need(cnt3==2, 'two both_moved blocks followed by hints')
+    U.log.rule('D10', fobj, '2 early `return Ok(());` inside the first for-loop -> verif_ret flag + break, returned after the loop')
+    U.log.rule('overlay', fobj, '8 loop specs by ordinal, ghost snapshots old_cluster/mid/hit_idx, proof hints anchored on source text')
     bump = bump_global_epoch(U)
     specs_final = s[:s.index('//@@SPECS_END@@')].replace('//@@BUMP@@', bump.text)
     contract_final = s[s.index('//@@CONTRACT_BEGIN@@') + len('//@@CONTRACT_BEGIN@@\n'):s.index('//@@CONTRACT_END@@')]
